@@ -86,7 +86,7 @@ func substVar(t, v, r *Term, memo map[*Term]*Term) *Term {
 }
 
 // skolemise replaces the universal quantifiers in positive position of a goal by fresh constants.
-func skolemise(goal *Term, sk *[]*Term) *Term {
+func skolemiseOld(goal *Term, sk *[]*Term) *Term {
 	switch {
 	case goal.Op == "=>" && len(goal.Args) == 2:
 		b := skolemise(goal.Args[1], sk)
@@ -121,6 +121,13 @@ func skolemise(goal *Term, sk *[]*Term) *Term {
 		return skolemise(substVar(goal.Args[1], v, c, map[*Term]*Term{}), sk)
 	}
 	return goal
+}
+
+// skolemise: the negated goal is an assumption; its quantifiers that are existential in effect — the goal's universal
+// quantifiers in positive position and its existential ones in negative position (under an antecedent) — become
+// fresh constants.
+func skolemise(goal *Term, sk *[]*Term) *Term {
+	return not(skolemPolar(not(goal), true, sk))
 }
 
 // rangeBounds: for a body (=> (and .. (<= lo x) .. (< x hi) ..) B) the ground bounds of x.
@@ -288,6 +295,17 @@ func instantiatedScript(as []*Term, goal *Term) string {
 // quantifier-free parts and the ground instances remain (plus axioms that carry an explicit pattern). Fewer
 // assumptions, so unsat is still a proof; without quantifiers to instantiate the solvers answer at once.
 func groundScript(as []*Term, goal *Term) string {
+	// (=> A C) under the assumptions is C under the assumptions and A: the antecedents (path condition, the
+	// antecedent of a conditional postcondition) are treated like every other assumption — instantiated, skolemised
+	for goal.Op == "=>" && len(goal.Args) == 2 {
+		a := goal.Args[0]
+		if a.Op == "and" {
+			as = append(append([]*Term{}, as...), a.Args...)
+		} else {
+			as = append(append([]*Term{}, as...), a)
+		}
+		goal = goal.Args[1]
+	}
 	var sk []*Term
 	g := skolemise(goal, &sk)
 	cands := candidates(as, goal, sk, 20)
@@ -574,16 +592,23 @@ func collectClassTerms(t *Term, seen map[*Term]bool, out *[]*Term) {
 	}
 }
 
+var patternMemo = map[*Term]bool{}
+
 func hasPattern(t *Term) bool {
-	if t.Op == "!" {
-		return true
+	if v, ok := patternMemo[t]; ok {
+		return v
 	}
-	for _, a := range t.Args {
-		if hasPattern(a) {
-			return true
+	r := t.Op == "!"
+	if !r {
+		for _, a := range t.Args {
+			if hasPattern(a) {
+				r = true
+				break
+			}
 		}
 	}
-	return false
+	patternMemo[t] = r
+	return r
 }
 
 // stripQuant removes the quantified conjuncts in positive position (a weaker formula); anything else that still
